@@ -22,6 +22,7 @@ import CaddyModel.C14.Witness
 import CaddyModel.Gen.CAWrites
 import CaddyModel.Gen.Autosave
 import CaddyModel.Gen.Resume
+import CaddyModel.Gen.ChangeConfig
 
 namespace CaddyModel.C14
 
@@ -578,6 +579,35 @@ theorem autosave_recovers_after_interrupted_autosave (a0 : AState) (l0 : Load) (
   simp only [runLoads, resumeConfig]
   exact autosave_latest_after_return evs _ hc (fun c hcur => by simp [AEvent.step] at hcur) l hp hacc
 
+/-- **the autosave file is the document AS SUBMITTED, ids included.**  `@id` tags are meta fields:
+    they are removed before the config is decoded, so two documents that differ only in them run
+    the same modules — but they are different documents, `caddy.Load` compares the re-encoded
+    BYTES (`bytes.Equal(rawCfgJSON, newCfg)`), and `--resume` must bring the tags back (`/id/…`).
+    For EVERY function `strip` (in particular `RemoveMetaFields`): a push whose document differs
+    from the running one — even if only inside what `strip` removes — is not treated as unchanged;
+    when it returns (persistence on, accepted, no fault) the autosave file is exactly the pushed
+    bytes, not the running ones. -/
+theorem autosave_exact_document (strip : Bytes → Bytes) (l : Load) (a : AState) (c : Bytes)
+    (hcur : a.cur = some c) (_hstrip : strip c = strip l.cfg) (hne : c ≠ l.cfg)
+    (hp : l.persists = true) (hacc : l.accepted = true) :
+    (loadStep codeStyle l none a).res = .ok ∧ (loadStep codeStyle l none a).st.fs.path = some l.cfg ∧
+    (loadStep codeStyle l none a).st.fs.path ≠ some c := by
+  have hs : sameCfg l a = false := by
+    simp only [sameCfg, hcur, Bool.and_eq_false_iff]
+    right
+    simpa using hne
+  have ho := ops_tmpRename_nofault a.fs l.cfg
+  have hpath : (loadStep codeStyle l none a).st.fs.path = some l.cfg := by
+    unfold loadStep
+    simp only [hs, Bool.false_eq_true, if_false, hacc, Bool.not_true, hp, if_true, codeStyle, ho.2.1]
+    exact ho.1
+  refine ⟨?_, hpath, ?_⟩
+  · unfold loadStep
+    simp only [hs, Bool.false_eq_true, if_false, hacc, Bool.not_true, hp, if_true, codeStyle, ho.2.1]
+  · rw [hpath]
+    intro h
+    exact hne (Option.some.inj h).symm
+
 /-- **autosave_only_if_persist_enabled.**  A load whose config has persistence off (or is
     null, or may not be persisted) performs no file operation and leaves both files as they
     were, in either style and under any fault. -/
@@ -779,5 +809,14 @@ theorem resume_read_matches_source :
     Gen.cmdRunReadFileArgs = ["caddy.ConfigAutosavePath"] ∧ Gen.cmdRunEnvFileCalls = 1 ∧
     Gen.cmdRunAutosavePathUsesBeforeEnvFile = 0 ∧ Gen.cmdRunReadsBeforeEnvFile = 0 ∧
     Gen.loadEnvFromFileRecomputesAutosavePath = true := by decide
+
+/-- every successful return of `changeConfig` has run the new document (and so autosaved it):
+    between computing `newCfg` and the single `unsyncedDecodeAndRun` call the function only returns
+    errors (the encode error, `errSameConfig` for byte-identical documents, the index error), and
+    it has no `return nil` above that call — there is no short-cut to success in front of the
+    reload, which is what `loadStep`'s only no-write success (`sameCfg`: identical bytes) models. -/
+theorem change_config_runs_before_success_matches_source :
+    Gen.changeConfigReturnsBeforeRun = ["APIError{…}", "errSameConfig", "APIError{…}"] ∧
+    Gen.changeConfigNilReturnsBeforeRun = 0 ∧ Gen.changeConfigRunCalls = 1 := by decide
 
 end CaddyModel.C14
